@@ -225,3 +225,19 @@ twin("C08-T1", "C08", "copy.deepcopy instead of sc.dcp", M, "Model.__init__", "s
 twin("C08-T2", "C08", "read-only alias of parset.pars", M, "Model.build", "            cascade_par = parset.pars[par_name]", "            p_all = parset.pars\n            cascade_par = p_all[par_name]")
 twin("C08-T3", "C08", "sorted(set(...)) iteration", M, "Model.update_links", "        ti = self._t_index\n", "        ti = self._t_index\n        acc = 0.0\n        for nm in sorted(set(p.name for p in self._exec_order[\"transition_pars\"])):\n            acc += len(nm) * 0.1\n")
 twin("C08-T4", "C08", "local dict named like nothing global", M, "Model.update_pars", "        ti = self._t_index\n", "        ti = self._t_index\n        scratch = dict()\n        scratch[\"last_ti\"] = ti\n")
+
+# =============================================================================================== C09
+PR = "atomica/programs.py"
+mutant("C09-M1", "C09", "R09a", "do_program_overwrite = self.programs_active", M, "Model.update_pars", "do_program_overwrite = self.programs_active and self.program_instructions.start_year <= self.t[ti] <= self.program_instructions.stop_year", "do_program_overwrite = self.programs_active")
+mutant("C09-M2", "C09", "R09b", "get_alloc linear interpolation", PR, "ProgramSet.get_alloc", "alloc[prog.name] = instructions.alloc[prog.name].interpolate(tvec, method=\"previous\")", "alloc[prog.name] = instructions.alloc[prog.name].interpolate(tvec)")
+mutant("C09-M3", "C09", "R09b", "get_spend default method", PR, "Program.get_spend", "        else:\n            return self.spend_data.interpolate(year, method=\"previous\")", "        else:\n            return self.spend_data.interpolate(year)")
+mutant("C09-M4", "C09", "R01d", "Compartment.update reads link.vals[ti]", M, "Compartment.update", "v += link.vals[tr]", "v += link.vals[ti]")
+mutant("C09-M5", "C09", "R09d", "update_pars reads par[ti + 1]", M, "Model.update_pars", "                par_vals = [x[ti] for x in self._vars_by_pop[pars[0].pop_aggregation[1]]]", "                par_vals = [x[ti + 1] for x in self._vars_by_pop[pars[0].pop_aggregation[1]]]")
+mutant("C09-M6", "C09", "R09a", "stop-year test dropped", M, "Model.update_pars", "self.program_instructions.start_year <= self.t[ti] <= self.program_instructions.stop_year", "self.program_instructions.start_year <= self.t[ti]")
+mutant("C09-M7", "C09", "R09a", "start-year test strict", M, "Model.update_pars", "self.program_instructions.start_year <= self.t[ti] <= self.program_instructions.stop_year", "self.program_instructions.start_year < self.t[ti] <= self.program_instructions.stop_year")
+mutant("C09-M8", "C09", "R09b", "unit cost interpolated linearly", PR, "Program.get_capacity", "unit_cost = self.unit_cost.interpolate(tvec, method=\"previous\")", "unit_cost = self.unit_cost.interpolate(tvec, method=\"linear\")")
+mutant("C09-M9", "C09", "R09c", "scenario overwrite mask starts after the first overwrite", "atomica/scenarios.py", "ParameterScenario.get_parset", "par.smooth(tvec[tvec >= scen_start], pop_names=pop_label, method=self.interpolation)", "par.smooth(tvec[tvec > scen_start], pop_names=pop_label, method=self.interpolation)")
+mutant("C09-M10", "C09", "R09d", "update_links reads the whole transition series", M, "Model.update_links", "            transition = par.vals[ti]\n", "            transition = par.vals[ti:].max()\n")
+mutant("C09-M11", "C09", "R09a", "one program store hoisted out of the gate", M, "Model.update_pars", "            # Handle parameters that aggregate over populations and use interactions in these functions.\n", "            if self.programs_active:\n                for par in pars:\n                    if (par.name, par.pop.name) in prog_vals:\n                        par[ti] = prog_vals[(par.name, par.pop.name)]\n")
+twin("C09-T1", "C09", "gate written as two nested conditions", M, "Model.update_pars", "do_program_overwrite = self.programs_active and self.program_instructions.start_year <= self.t[ti] <= self.program_instructions.stop_year", "in_window = self.program_instructions.start_year <= self.t[ti] and self.t[ti] <= self.program_instructions.stop_year if self.programs_active else False\n        do_program_overwrite = self.programs_active and self.program_instructions.start_year <= self.t[ti] and self.t[ti] <= self.program_instructions.stop_year")
+twin("C09-T2", "C09", "method='previous' passed positionally", PR, "Program.get_capacity", "unit_cost = self.unit_cost.interpolate(tvec, method=\"previous\")", "unit_cost = self.unit_cost.interpolate(tvec, \"previous\")")
